@@ -101,6 +101,8 @@ def setup(eng, ob):
                 eng.add_region(st, ty.size(), 'buf%d' % len(bufs), kind='param', lo=obj)
             bufs.append({'lo': r.lo, 'obj': obj, 'words': words, 'ty': ty, 'mutable': p[2]})
             args.append(BV(obj, 64))
+        elif p[0] == 'alias':       # a second pointer to an earlier buffer
+            args.append(BV(bufs[p[1]]['obj'], 64))
         else:
             t = p[1]
             v = z3.BitVec('x%d' % len(xs), clifcheck.bits_of(t))
@@ -179,9 +181,14 @@ def concrete_args(ob, xs, bufs, init_mem, model):
     """NativeBatch arguments from a model: buffers (with guards) as little-endian ints"""
     nargs = []; ptr_args = []
     xi = 0; bi = 0
+    buf_arg = []
     for p in ob.params:
-        if p[0] == 'buf':
+        if p[0] == 'alias':
+            b = bufs[p[1]]
+            nargs.append((('alias', buf_arg[p[1]], b['ty'].src(), True, GUARD_WORDS), 0))
+        elif p[0] == 'buf':
             b = bufs[bi]; bi += 1
+            buf_arg.append(len(nargs))
             v = 0
             for i in range(b['words'] * 8):
                 byte = model.eval(z3.Select(init_mem, BV(b['lo'] + i, 64)), model_completion=True).as_long()
